@@ -13,6 +13,12 @@ def both(cmd, extra=None, timeout=900):
     return [leg("debug", "debug", [cmd] + extra, timeout), leg("release", "release", [cmd] + extra, timeout)]
 
 
+def shards(cmd, n, timeout, profile="release"):
+    """n further processes of the same workload at other seeds (thorough tier): the seeded part of every
+    generator differs per shard, the enumerated sweeps repeat."""
+    return [leg(f"{profile}-s{i+1}", profile, [cmd, "--seed-add", str(i + 1)], timeout=timeout, mandatory=False) for i in range(n)]
+
+
 PROPS = {}
 NOT_APPLICABLE_REASON = {}
 HOOK_COMMITS = ["b850110", "d36f913"]
@@ -25,7 +31,7 @@ PROPS["C20"] = {
                    "panic-freedom/finiteness of the estimate and the 40% accuracy envelope; in builds with and without "
                    "overflow checks. Held on the executions observed, not a proof over 256^256 states."),
     "level_note": "trusts the harness PRNG for 'uniformly random'; laws compared through to_hex_string; sampled, except the two enumerated families",
-    "legs": lambda tier: both("c20", timeout=1800 if tier == "thorough" else 300),
+    "legs": lambda tier: both("c20", timeout=1800 if tier == "thorough" else 300) + (shards("c20", 6, 1800) if tier == "thorough" else []),
     "rule": ("register states: all 65,536 single-register states and all 256 all-equal states (enumerated, "
              "exhaustive for those two families), seeded random states in four distributions, each imported from "
              "hex, re-exported, and estimated under catch_unwind; law instances: random multisets A,B,C (with "
@@ -51,8 +57,9 @@ def types_legs(cmd, tier, miri_quick=0, miri_thorough=(0, 0), asan_quick=False, 
     if tier == "thorough" or asan_quick:
         legs.append(leg("asan", "asan", [cmd] + asan_args, timeout=t, mandatory=False))
     if tier == "thorough":
-        shards, per = miri_thorough
-        for i in range(shards):
+        legs += shards(cmd, 6, t)
+        nmiri, per = miri_thorough
+        for i in range(nmiri):
             legs.append(leg(f"miri{i}", "miri", [cmd, "--sample", str(per), "--seed-add", str(i + 1)], timeout=t, mandatory=False))
     elif miri_quick:
         legs.append(leg("miri", "miri", [cmd, "--sample", str(miri_quick)], timeout=600, mandatory=False))
@@ -126,7 +133,7 @@ PROPS["C06"] = {
                    "extension values, non-first values, repeated, empty and multi-letter names; a share of pairs also "
                    "goes through the JSON parsers."),
     "level_note": "the reference predicate in harness/src/sem.rs is the specification; operands built with from_parts are taken as well-formed",
-    "legs": lambda tier: both("c06", timeout=3600 if tier == "thorough" else 600),
+    "legs": lambda tier: both("c06", timeout=3600 if tier == "thorough" else 600) + (shards("c06", 6, 3600) if tier == "thorough" else []),
     "rule": ("pairs (filter, event) from small pools so that clauses collide; distinct = hash of both binary forms; "
              "non-trivial = the filter has at least one clause. Evidence counters give the pass/fail split per clause."),
     "assumptions": ["constraints without a name string (empty tag in a from_parts filter) are not generated"],
@@ -160,7 +167,7 @@ PROPS["C08"] = {
                    "key or signature) must fail. Strings cover every ASCII character alone and in runs, quotes and "
                    "backslashes next to escapes, multi-byte and astral scalars."),
     "level_note": "trusts libsecp256k1 for BIP-340 and serde_json's string escaping as the NIP-01 escaping (7 short escapes, \\u00xx lower-case, everything else verbatim); harness SHA-256 is cross-checked against bitcoin_hashes on every case",
-    "legs": lambda tier: both("c08", timeout=3600 if tier == "thorough" else 600) + ([leg("asan", "asan", ["c08"], timeout=3600, mandatory=False)] if tier == "thorough" else []),
+    "legs": lambda tier: both("c08", timeout=3600 if tier == "thorough" else 600) + ([leg("asan", "asan", ["c08"], timeout=3600, mandatory=False)] + shards("c08", 6, 3600) if tier == "thorough" else []),
     "rule": ("semantic events (systematic strings for the first 320 of every 700, random otherwise), each sealed with "
              "one of four keys and mutated ~120 ways; distinct = hash of the sealed event; non-trivial = has content or tags."),
     "assumptions": ["valid UTF-8 strings only"],
